@@ -30,7 +30,20 @@ def seeded():
         out.append("| `%s` | %s | %s%s |" % (os.path.basename(d[:-1]), m["needs_to_manifest"].replace("|", "/"),
                    "" if m["check_result"]["detected"] == "yes" else "**NOT DETECTED** — ", m["check_result"]["by"].replace("|", "/")))
     out.append("")
-    out.append("%d confirmed seeded changes, %d detected by the quick tier of their property's check." % (n, det))
+    out.append("%d confirmed seeded changes, %d detected by the quick tier of their property's check; the others are marked (thorough tier only / caught by another property's check)." % (n, det))
+    missed = []
+    for d in sorted(glob.glob(V + "/seeded/*/")):
+        mp = d + "meta.json"
+        if os.path.exists(mp):
+            m = json.load(open(mp))
+            by = m["check_result"]["by"]
+            if "missed at first" in by or "needed " in by or "not visible" in by or "not caught at the quick tier" in by or "thorough tier only" in by:
+                missed.append("* `%s`: %s" % (os.path.basename(d[:-1]), by.replace("|", "/")))
+    if missed:
+        out.append("")
+        out.append("Seeded changes that were missed when first tried, and what was added to catch them (%d of %d):" % (len(missed), n))
+        out.append("")
+        out += missed
     return "\n".join(out)
 
 def measured():
